@@ -30,6 +30,9 @@ CLAIMED = {
  "C04": ("property-based testing: model-based op sequences on the buffering reader over scripted short-read schedules; differential parse (chunked reader vs whole buffer); suffix metamorphic relation",
          "Generated-input and generated-schedule exploration: the harness owns the read-size schedule of the source, so refills, compactions and boundary fills (low mark -3..+7) are produced deliberately; reader vs (data,position) model after every op, iterator results over the reader vs over a Cursor incl. 65 KB messages and injected markers.",
          "low mark for the iterator differential is DLT_MAX_STORAGE_MSG_SIZE as both callers use; open finding F04 excluded by input class (counted) and reported as KNOWN-FINDING", "4/C04"),
+ "C10": ("property-based testing: permutation oracle on arbitrary input; constructed bounded-delay streams with recomputed calculated times as ordering oracle",
+         "Generated-input exploration: permutation for messy traces (table from the real detector, or arbitrary/unknown ids), ordering for streams constructed to satisfy the stated bound exactly (several ECUs/lifecycles, control requests, capped messages, windows 1..10 s, min delay 0..60 s).",
+         "calculated time is recomputed by the harness from the statement; times are multiples of 0.1 ms so the bound holds exactly", "4/C10"),
 }
 PENDING = {}
 def main():
